@@ -20,6 +20,11 @@ ck.regen()
 mods = ck.props_modules()
 if mods:
     ck.lean(mods)
+    ck.require_theorems([
+        'LbzVerif.Props.C02.numSelectors_le',
+        'LbzVerif.Props.C02.dummyTable_complete',
+        'LbzVerif.Props.C02.treePad_in_range',
+    ])
 exe = ck.build_lbzip2(asan=False)
 evals = 0
 seen = set()
